@@ -170,6 +170,82 @@ def many_systems(s0: int, e0: int, r0: int, s1: int, e1: int, r1: int, t0: int) 
     return hx.end(m.timestep == t0 + steps)
 
 
+class Spawner(System):
+    """registers another system from inside its own execute() at a given timestep"""
+    __slots__ = ['when', 'child']
+
+    def execute(self):
+        if self.model.systems.timestep == self.when:
+            self.model.systems.add_system(self.child)
+
+
+def reregister(start: int, end: int, t0: int, r1: int, r2: int) -> bool:
+    """
+    pre: 0 <= r1 <= r2 <= hx.P['steps']
+    post: _
+    """
+    # a system is removed just before step r1 and registered again (the same object, or a new one with the same id)
+    # just before step r2: it runs at exactly its due timesteps while registered - also right after re-registration
+    hx.begin()
+    steps, f, fresh, chunk = hx.P['steps'], hx.P['f'], hx.P['fresh'], hx.P['chunk']
+    m = LogModel()
+    m.systems.timestep = t0
+    s = S("s", m, frequency=f, start=start, end=end)
+    m.systems.add_system(s)
+    m.systems.add_system(S("other", m, start=t0, end=t0 + 1000))
+    registered = True
+    step = 0
+    while step < steps:
+        if step == r1 and registered:
+            m.systems.remove_system("s")          # (r1 == r2: removed and registered again between the same two steps)
+            registered = False
+        if step == r2 and not registered:
+            m.systems.add_system(S("s", m, frequency=f, start=start, end=end) if fresh else s)
+            registered = True
+        # advance `chunk` steps in one call where no change is scheduled in between
+        n = 1
+        while n < chunk and step + n < steps and step + n != r1 and step + n != r2:
+            n += 1
+        m.execute(n)
+        step += n
+    exp = [("s", t0 + k) for k in range(steps) if (k < r1 or k >= r2) and start <= t0 + k <= end and (t0 + k - start) % f == 0]
+    got = [e for e in m.log if e[0] == "s"]
+    if r1 <= r2 < steps and len([e for e in exp if e[1] >= t0 + r2]) > 0:
+        hx.reach('runs_after_reregistration')
+    if got != exp:
+        return hx.end(hx.fail("log of a re-registered system", got=got, exp=exp, removed_before_step=r1, readded_before_step=r2))
+    if [e[1] for e in m.log if e[0] == "other"] != [t0 + k for k in range(steps)]:
+        return hx.end(hx.fail("bystander system skipped or repeated"))
+    return hx.end(m.timestep == t0 + steps)
+
+
+def spawn_inside(start: int, end: int, t0: int, when: int, n: int) -> bool:
+    """
+    pre: 1 <= n <= hx.P['N']
+    pre: 0 <= when < n
+    post: _
+    """
+    # a system registers another one from inside execute(n): from the NEXT timestep on the new system follows its
+    # window (whether it already runs in the timestep of its registration is left open)
+    hx.begin()
+    f, prio = hx.P['f'], hx.P['prio']
+    m = LogModel()
+    m.systems.timestep = t0
+    sp = Spawner("spawner", m, start=t0, end=t0 + 1000)
+    sp.when = t0 + when
+    sp.child = S("child", m, priority=prio, frequency=f, start=start, end=end)
+    m.systems.add_system(sp)
+    m.execute(n)
+    got = [e[1] for e in m.log if e[0] == "child"]
+    must = [t for t in range(t0 + when + 1, t0 + n) if start <= t <= end and (t - start) % f == 0]
+    may = [t0 + when] if (start <= t0 + when <= end and (t0 + when - start) % f == 0) else []
+    if len(must) > 0:
+        hx.reach('child_runs_later')
+    if got != must and got != may + must:
+        return hx.end(hx.fail("system registered during execute(n)", got=got, must_run_at=must, may_also_run_at=may))
+    return hx.end(m.timestep == t0 + n)
+
+
 _BAD = [True, False, 1.0, 2.5, "1", None, [1], (1,)]
 
 
@@ -231,5 +307,14 @@ def obligations(tier):
           encoded=enc + (SystemManager.add_system,),
           bounds={"systems": "2 symbolic windows (+1 concrete)", "steps": "<= %d" % (3 if tier == "quick" else 4),
                   "frequencies": "concrete per partition"}),
+        X("reregister", reregister,
+          parts=[{"steps": st, "f": f, "fresh": fr, "chunk": ch} for st, f, fr, ch in
+                 (((3, 1, False, 1), (3, 2, True, 1), (4, 1, True, 3)) if tier == "quick" else
+                  ((3, 1, False, 1), (3, 2, True, 1), (4, 1, True, 3), (4, 2, False, 2), (5, 3, True, 1), (5, 1, False, 4)))],
+          labels=("runs_after_reregistration",), timeout=900, encoded=enc + (SystemManager.add_system, SystemManager.remove_system),
+          bounds={"steps": "<= %d" % (4 if tier == "quick" else 5), "window, timestep": "all ints", "frequency": "concrete per partition"}),
+        X("spawn_inside", spawn_inside, parts=[{"N": N, "f": f, "prio": pr} for f, pr in ((1, 0), (2, 5), (1, -3))],
+          labels=("child_runs_later",), timeout=900, encoded=enc + (SystemManager.add_system,),
+          bounds={"n": "1..%d" % N, "child priority": "0, 5, -3 (spawner 0)"}),
         X("reject_n", reject_n, labels=("nonpositive", "nonint"), timeout=120, encoded=(Model.execute,)),
     ]
